@@ -646,7 +646,8 @@ META = {
             "reads, wired to the same attribute, and all state-defining attributes round-trip; (b) TdMpsJob.dump_dict is reduced to its "
             "file-system effects and interpreted from every abstract directory state reachable by crashing (also inside the writer, also "
             "via IOError) and restarting: a complete result file must survive every instant. The state space is finite and enumerated "
-            "completely. The numerical identity of reloaded values is not decided (numpy round trip is trusted).",
+            "completely. The numerical identity of reloaded values is not decided (numpy round trip is trusted)."
+            ' Values read back from the archive pass only through value-preserving conversions; the disk spill of large site tensors uses one file per (object, site), read back with the same dtype and quantum numbers.',
     "note": "Assumes rename/replace/remove are atomic, savez is not; models a path as absent/partial/complete. Unknown os/shutil calls or "
             "effects inside loops stop the analysis with exit 2 instead of a verdict.",
     "design_ref": "DESIGN.md 3.8, 4 (C14)",
